@@ -189,6 +189,26 @@ def main():
         return 2
 
     records = list(ctx.records)
+    # positive controls on the fixture crate: the zero-expected rule primitives must fire there
+    import controls
+    ctl_ran = []
+    if controls.BY_PROPERTY.get(prop) and not args.facts:
+        fout = os.path.join(cache, "facts-fixture-%s.json" % prop)
+        r = subprocess.run([os.path.join(HERE, "extract_fixture.sh"), fout])
+        if r.returncode != 0:
+            print("NO-VERDICT property=%s: fixture extraction failed" % prop)
+            return 2
+        fctx = Ctx(prop, tier, Facts(fout))
+        for cid in controls.BY_PROPERTY[prop]:
+            try:
+                fired = controls.CONTROLS[cid](fctx)
+            except Exception:
+                fired = False
+                ctx.note("control %s raised: %s" % (cid, traceback.format_exc()[-300:]))
+            ctl_ran.append((cid, fired))
+            rec = Record("CONTROL", "sa/fixtures/lib.rs", cid, "ok" if fired else "violation",
+                         "rule primitive fires on its positive-control fixture" if fired else "rule primitive did NOT fire on its positive-control fixture: the matcher is broken, a silent pass cannot be trusted", "", False)
+            records.append(rec)
     if extra is not None:
         for r in extra.records:
             if r.verdict == "violation":
@@ -257,6 +277,7 @@ def main():
                 "rules": sorted({r.rule for r in records}),
                 "known_findings_reported": [r.key for r in kn],
                 "notes": ctx.notes,
+                "positive_controls": [{"control": c, "fired": f} for c, f in ctl_ran],
                 "checker_cmd": "python3 sa/check.py %s --tier %s" % (prop, tier),
                 "trusted_base": ["rustc MIR construction and trait resolution (nightly, -Zmir-opt-level=0)",
                                  "semantics of std/glob/indexmap/serde/RustCrypto calls",
